@@ -304,7 +304,9 @@ def run(tier, seed):
     ops = alphabet(tier)
     depth = 2 if tier == "quick" else 3
     items = []
-    for sp in base_models() + F.nested_running_specs()[:: (2 if tier == "quick" else 1)]:
+    subm = {"tasks": [{"name": "T0", "work": 2.0}, {"name": "S1", "work": 3.0, "sub": {}}, {"name": "T2", "work": 1.0}], "links": [[0, 1, "FS"], [1, 2, "FS"]],
+            "teams": [{"name": "TM0", "targets": [0, 2], "workers": [{"name": "W0", "skills": {"T0": 1.0, "T2": 1.0}, "cost": 1.0}]}]}  # a sub-project task (not configured from a file) between two worked tasks
+    for sp in base_models() + [subm] + F.nested_running_specs()[:: (2 if tier == "quick" else 1)]:
         # split the first operation across work items for parallelism: handled by BFS inside; one item per model
         for op in ops:
             items.append((sp, depth, ops, (op,)))
